@@ -126,6 +126,20 @@ Proof.
   - split; [discriminate|]. intros [_ [H _]]. apply Z.eqb_neq in Ea. contradiction.
 Qed.
 
+(* ProducerMessage.clear (regenerated from async_producer.go, golden Gen.DecC05.clear_message) applied to the fields the
+   producer owns = Msg.fresh_of: a message object that was handed back to the application on Successes() / Errors() and
+   is sent again enters the composition exactly as CSubmit lets every message enter (no sequence number, hasSequence
+   false, retries 0, flags 0), whatever stamps it carried *)
+Definition cleared (m : msg) : msg :=
+  let '(fl, r, sq, ep, hs) := clear_message (m_flags m) (Z.of_nat (m_retries m)) (m_seq m) (m_epoch m) (m_hasseq m) in
+  mkMsg (m_id m) (m_topic m) (m_part m) (Z.to_nat r) fl (m_size m) (m_hdr m) (m_pres m) (m_encfail m) sq ep hs (m_ipanic m).
+
+Lemma tie_clear m :
+  cleared m = fresh_of m /\
+  m_hasseq (cleared m) = false /\ m_seq (cleared m) = 0 /\ m_epoch (cleared m) = 0 /\ m_retries (cleared m) = 0%nat /\ m_flags (cleared m) = F_DATA /\
+  fresh_pass (cleared m) = true /\ is_data (cleared m) = true.
+Proof. repeat split. Qed.
+
 (* a naming exists: the hypotheses of tie_stamp / tie_bump are satisfiable on a non-trivial state *)
 Example tie_stamp_instance :
   get_and_increment_sequence_number [(seq_key FMT "t" 10, 3); (seq_key FMT "t1" 0, 5)] "t1" 0 2 =
